@@ -142,6 +142,10 @@ def options(cfg):
         kw["nc_out"] = cfg["nc_out"]
     if cfg.get("reject"):
         kw["reject_channels"] = True
+    if cfg.get("no_rms"):
+        kw["compute_rms"] = False
+    if cfg.get("float32"):
+        kw["dtype"] = np.float32
     return kw
 
 
@@ -242,6 +246,7 @@ def config_cases(tier, seed):
               dict(nsites=16, ns=3 * 2560 + 100, nbatch=2560, pmax=3, k_filter=True, reject=True, labels=[0] * 12 + [1, 0, 3, 3]),
               # many workers on a short recording: a worker's first batch would lie past the last one
               dict(nsites=4, ns=5000, nbatch=4096, pmax=6), dict(nsites=4, ns=2560 + 700, nbatch=2560, pmax=6),
+              dict(base, no_rms=True), dict(base, float32=True), dict(base, float32=True, ns2add=33, wrot="2I"),
               # recordings not longer than one batch
               dict(nsites=4, ns=4096, nbatch=4096, pmax=3), dict(nsites=4, ns=3000, nbatch=4096, pmax=4), dict(nsites=4, ns=2049, nbatch=2560, pmax=2),
               dict(base, append=True, ns=4096 + 2048 + 1), dict(nsites=4, ns=3 * 2560, nbatch=2560, pmax=4, append=True, ns2add=7)]
@@ -261,12 +266,14 @@ def config_check(cfg):
     nc_out = cfg.get("nc_out") or nc
     runs = 2 if cfg.get("append") else 1
     # ---- one worker: the baseline
+    isz = 4 if cfg.get("float32") else 2
+    odt = np.float32 if cfg.get("float32") else np.int16
     art1, s1, exc1 = execute(fbin, os.path.join(d, "o1"), cfg, 1, append_runs=runs)
     ntr += 1
     if exc1 is not None:
         return Res([("p1:exc:%s" % type(exc1).__name__, "%s with one worker raised %s: %s" % (ctx0, type(exc1).__name__, exc1))], o="exc")
     ref, sync, nbatches, ncv = reference(fbin, cfg)
-    out1 = np.frombuffer(art1["out.bin"], dtype=np.int16)
+    out1 = np.frombuffer(art1["out.bin"], dtype=odt)
     exp_len = (ns + cfg.get("ns2add", 0)) * nc_out * runs
     if out1.size != exp_len:
         seen.setdefault("size", "%s: output holds %d values = %.2f samples of %d channels, expected %d samples"
@@ -292,16 +299,19 @@ def config_check(cfg):
             if not np.array_equal(pad, np.tile(first_run[ns - 1], (pad.shape[0], 1))):
                 seen.setdefault("padding", "%s: the padding samples do not repeat the last sample" % ctx0)
     # QC files
-    sat = art1["saturation"]
+    if cfg.get("no_rms"):
+        if art1["saturation"] is not None or art1["ap_rms.bin"] is not None:
+            seen.setdefault("qc:written-although-disabled", "%s: QC files are written although compute_rms=False" % ctx0)
+    sat = art1["saturation"] if not cfg.get("no_rms") else np.zeros(ns, dtype=bool)
     if sat is None or sat.shape != (ns,):
         seen.setdefault("qc:saturation-length", "%s: saturation file has shape %r, expected one entry per sample (%d)" % (ctx0, None if sat is None else sat.shape, ns))
     nb_exp = int(np.ceil(max(ns - N, 0) / (N - 2 * TAPER))) + 1
-    rms = np.frombuffer(art1["ap_rms.bin"], dtype=np.float32)
-    tim = np.frombuffer(art1["ap_time.bin"], dtype=np.float32)
-    if rms.size != nb_exp * ncv * runs or tim.size != nb_exp * runs or nbatches != nb_exp:
+    rms = np.frombuffer(art1["ap_rms.bin"] or b"", dtype=np.float32)
+    tim = np.frombuffer(art1["ap_time.bin"] or b"", dtype=np.float32)
+    if not cfg.get("no_rms") and (rms.size != nb_exp * ncv * runs or tim.size != nb_exp * runs or nbatches != nb_exp):
         seen.setdefault("qc:rms-rows", "%s: %d rms values / %d timestamps, expected one row per batch (%d batches x %d channels)" % (ctx0, rms.size, tim.size, nb_exp, ncv))
     for f in ("_iblqc_ephysTimeRmsAP.rms.npy", "_iblqc_ephysTimeRmsAP.timestamps.npy"):
-        if not os.path.exists(os.path.join(d, "o1", f)):
+        if not cfg.get("no_rms") and not os.path.exists(os.path.join(d, "o1", f)):
             seen.setdefault("qc:files", "%s: %s not written" % (ctx0, f))
     # ---- several workers: every trace
     stats = []
@@ -320,7 +330,7 @@ def config_check(cfg):
             raise HarnessError("%s: footprint has workers %r" % (ctx, sorted(per)))
         ref_keys = {t: [o.key() for o in per[t]] for t in per}
         # every output byte written, all writers agree
-        nbytes = (ns + cfg.get("ns2add", 0)) * nc_out * 2
+        nbytes = (ns + cfg.get("ns2add", 0)) * nc_out * isz
         app_off = nbytes * (runs - 1)              # in append mode the recorded footprint is that of the last (appending) run
         if app_off:
             for t in per:
@@ -379,8 +389,8 @@ def config_check(cfg):
             compare.append((sc, a2))
         for sc, a in compare:
             if a["out.bin"] != art1["out.bin"]:
-                o2 = np.frombuffer(a["out.bin"], dtype=np.int16)
-                o1 = np.frombuffer(art1["out.bin"], dtype=np.int16)[:o2.size]
+                o2 = np.frombuffer(a["out.bin"], dtype=odt)
+                o1 = np.frombuffer(art1["out.bin"], dtype=odt)[:o2.size]
                 where = int(np.flatnonzero(o2 != o1[:o2.size])[0]) // nc_out if o2.size and o2.size <= o1.size and np.any(o2 != o1[:o2.size]) else -1
                 seen.setdefault("workers:differs-from-one-worker", "%s schedule %r...: the output is not byte-identical to the one-worker result (sizes %d/%d, first difference at sample %d)"
                                 % (ctx, sc[:10], len(a["out.bin"]), len(art1["out.bin"]), where))
@@ -389,7 +399,7 @@ def config_check(cfg):
                 seen.setdefault("workers:qc-differs", "%s schedule %r...: rms/time files differ from the one-worker result (%d/%d values)"
                                 % (ctx, sc[:10], len(a["ap_rms.bin"]) // 4, len(art1["ap_rms.bin"]) // 4))
                 break
-            if a["saturation"] is None or a["saturation"].shape != (ns,):
+            if not cfg.get("no_rms") and (a["saturation"] is None or a["saturation"].shape != (ns,)):
                 seen.setdefault("qc:saturation-length", "%s: saturation file has the wrong length" % ctx)
         if len(outcomes) > 1:
             seen.setdefault("schedule-dependent", "%s: %d different results over %d schedules" % (ctx, len(outcomes), len(compare)))
